@@ -96,7 +96,8 @@ def call(op: str, a: dict) -> dict:
             scaled = ttb.tensor(S.data.astype(float) * K / unscale)
             S2 = S.symmetrize(g, ver) if ver else S.symmetrize(g)
             return {"st": "ok", "scaled": bind.a_dense(scaled), "passes": bool(S.issymmetric(g)),
-                    "idempotent": bool(np.allclose(S2.data, S.data, atol=1e-12))}
+                    "idempotent": bool(np.allclose(S2.data, S.data, atol=1e-12)),
+                    "independent": bool(not np.shares_memory(S.data, X.data) and not np.shares_memory(S2.data, S.data))}
         if op == "issymmetric":
             if a["details"]:
                 val, diffs, perms = X.issymmetric(g, ver, True)
